@@ -11,7 +11,10 @@ class C06(Prop):
             "in-memory DB behind fake plugins; 10 topologies (1-3 sources, 1-3 destinations, pipeline / connector "
             "processors, a 3-worker processor, DLQ) x 2 engines; a random environment schedule (records handed out in "
             "batches of 1-3, confirmations / refusals of destinations and of the DLQ, store commits held and released) "
-            "and StopAndWait at a random position of it (quick) or at every position (thorough); two cases per run hold "
+            "and StopAndWait at a random position of it (quick) or at every position (thorough); a quarter of the quick cases "
+            "(and 6 corpus cases run first) are directed: the source plugin parks the consumption of ack k while it is in "
+            "flight, record k+1 is acked by the engine, the stop is issued, the forced flush commits, then the plugin "
+            "resumes (k = 1..4, 4 topologies, both engines); two cases per run hold "
             "the store for longer than the 10 s source teardown budget. distinct = distinct input JSON; non-trivial = "
             "records were read and at least one was in flight or unacknowledged when the stop was called")
     trusted_base = [
